@@ -176,6 +176,9 @@ def gen(rng, tier):
             "crash": rng.choice(CRASH_KINDS + (None,)),
             "crash_first_in_b": rng.random() < 0.5,
         }
+        # the dying simulation runs right before one member's second run: an engine-family member if there is one
+        eng = [i for i, n in enumerate(names) if ZOO[n]["family"] == "engine" and n != "dying_run"]
+        sc["plan"]["crash_before"] = eng[0] if eng else rng.randrange(COHORT)
         return sc
     sc = _gen_job(rng)
     n_others = rng.choice([0, 1, 1, 2, 3])
@@ -397,9 +400,9 @@ def _program(sc) -> list:
         marks.append(("repeat", len(jobs0) - 1))
     crash = _crash_job(plan)
     if (plan.get("after_others") and others) or crash is not None:
-        if crash is not None:
-            jobs0.append(crash)
         jobs0.extend(others if plan.get("after_others") else [])
+        if crash is not None:
+            jobs0.append(crash)        # immediately before the subject: a later complete run may overwrite what a dead run left behind
         jobs0.append(subj)
         marks.append(("after-others", len(jobs0) - 1))
     for m in plan.get("wall", []):
@@ -569,9 +572,12 @@ def _cohort_program(sc):
     jobs0 = list(members)
     marks = [(("ref", j), j) for j in range(k)]
     crash = _crash_job(plan)
-    if crash is not None:
-        jobs0.append(crash)            # an earlier experiment in this interpreter died with an exception the caller caught
+    cb = plan.get("crash_before", 0) % k
     for j, m in enumerate(members):
+        if crash is not None and j == cb:
+            # an earlier experiment in this interpreter died with an exception the caller caught — immediately before this
+            # member's second run (state a dead run leaves behind can be overwritten by the next complete run)
+            jobs0.append(crash)
         w = wall[j] if j < len(wall) else None
         jobs0.append({**m, "pool_seed": 1, **({"wall": w} if w else {})})   # pool_seed: other completion order of worker threads
         marks.append(((("after-others" if k > 1 else "repeat") + (f"+wall-{w}" if w else ""), j), len(jobs0) - 1))
@@ -585,10 +591,10 @@ def _cohort_program(sc):
     for h in plan.get("hs", []):
         # each member right after its sibling (same model and structure, other seeds) ran in that interpreter
         jobsb, marksb = [], []
-        if crash is not None and plan.get("crash_first_in_b"):
-            jobsb.append(crash)
         for j in order:
             jobsb.append(_sibling(members[j]))
+            if crash is not None and plan.get("crash_first_in_b") and j == cb:
+                jobsb.append(crash)
             jobsb.append({**members[j], "pool_seed": 2})
             marksb.append((("hashseed+after-sibling", j), len(jobsb) - 1))
         prog.append({"hs": h, "how": "fork", "jobs": jobsb, "marks": marksb})
@@ -659,7 +665,7 @@ def _run_cohort(sc):
             seen.add(j)
             single = dict(members[j])
             cj = _crash_job(sc["plan"])
-            single["others"] = ([cj] if cj is not None else []) + [m for i, m in enumerate(members) if i != j]
+            single["others"] = [m for i, m in enumerate(members) if i != j] + ([cj] if cj is not None else [])
             wall = sc["plan"].get("wall", [])
             alt = sorted(set(sc["plan"].get("hs", [])) | ({hs} if hs in HASHSEEDS[1:] else set()))
             single["plan"] = {"repeat": True, "sibling": True, "after_others": bool(single["others"]),
